@@ -48,6 +48,7 @@ DECIDING = {
     "spawn_service": "children started with start_service_task",
     "spawn_factory": "children started through a task factory",
     "spawn_tg_outliving_block": "children spawned into a task group that outlives the block they were spawned in",
+    "contexts_entered_later_than_built": "contexts created under one current context and entered later under another",
     "constructions_checked": "Context() constructions whose parent was compared with the current context",
     "teardown_callback_observations": "current_context() observed inside teardown callbacks",
     "empty_stack_checks": "observations expecting NoCurrentContext",
@@ -74,10 +75,12 @@ def gen_prog(rng: Any, depth: int, budget: list[int], in_ctx: bool) -> list[Any]
             steps.append(["yield", rng.randint(1, 3)])
         elif r < 0.45:
             steps.append(["sleep", rng.choice([0.5, 1])])
-        elif r < 0.55:
+        elif r < 0.5:
             steps.append(["construct"])
+        elif r < 0.57:
+            steps.append(["prebuild"])  # a context created here and entered later, somewhere deeper in this task
         elif r < 0.85 and depth < 6:
-            how = rng.choice(["implicit", "implicit", "implicit", "explicit_shared"])
+            how = rng.choice(["implicit", "implicit", "implicit", "explicit_shared", "prebuilt", "prebuilt"])
             steps.append(["enter", how, gen_prog(rng, depth + 1, budget, True), rng.choice(LEAVES)])
         elif depth < 5:
             kind = rng.choice(["tg", "tg", "service", "factory", "tg_outer"]) if in_ctx else "tg"
@@ -115,6 +118,7 @@ class Interp:
         self.nested_now: dict[int, int] = {}  # top-level task id -> current nesting depth
         self.shared: Any = None
         self.outer_tg: dict[int, Any] = {}
+        self.prebuilt: dict[int, list[Any]] = {}
         self.seq = 0
 
     def inc(self, k: str, n: int = 1) -> None:
@@ -184,8 +188,12 @@ class Interp:
             elif kind == "sleep":
                 await anyio.sleep(step[1])
                 self.check(tid, stack, "after-sleep")
+            elif kind == "prebuild":
+                self.prebuilt.setdefault(root_tid, []).append((Context(), stack[-1] if stack else None))
+                self.inc("contexts_built_ahead")
             elif kind == "construct":
-                c = Context()
+                self.seq += 1
+                c = Context(None) if self.seq % 2 else Context()  # an explicit None is the same as leaving the parent out
                 self.inc("constructions_checked")
                 top = stack[-1] if stack else None
                 if c.parent is not top:
@@ -194,7 +202,14 @@ class Interp:
             elif kind == "enter":
                 _, how, body, leave = step
                 parent_expected = stack[-1] if stack else None
-                if how == "explicit_shared" and self.shared is not None:
+                pool = self.prebuilt.get(root_tid, [])
+                usable = [i for i, (c0, top0) in enumerate(pool) if top0 is None or any(top0 is x for x in stack)]
+                if how == "prebuilt" and usable:
+                    # created earlier in this task under another current context (or none), entered only now: its parent is what was
+                    # current at its creation; inside the block it is current; afterwards whatever is current now is current again
+                    ctx, parent_expected = pool.pop(usable[0])
+                    self.inc("contexts_entered_later_than_built")
+                elif how == "explicit_shared" and self.shared is not None:
                     ctx = Context(self.shared)
                     parent_expected = self.shared
                 else:
